@@ -164,6 +164,14 @@ func (s *Stack) Reload(doc []byte) error {
 	return nil
 }
 
+// Load makes the document loader read a file, the way the file watcher reloads a configuration.
+func (s *Stack) Load(path string) error {
+	if l, ok := s.um.(interface{ Load(string) error }); ok {
+		return l.Load(path)
+	}
+	return fmt.Errorf("the document loader has no Load")
+}
+
 // Unmarshaller exposes the document loader (C16 drives it directly).
 func (s *Stack) Unmarshal(doc []byte) error { return s.um.Unmarshal(doc) }
 
